@@ -11,19 +11,22 @@ META = {
                  "(credential processing abstracted to what Authenticate leaves in the session) + vm_compute correspondence "
                  "with the real builder methods and the real ServeHTTP (recording handler, 14 credential forms) + safe_flags "
                  "checked by coqc on the real route table dumped from the real declarations on every run",
-    "text": "Theorems over the model: C20_gate_partial (for every route whose flags satisfy the decidable safe_flags - not "
-            "lightweight with a requirement, permissions imply must-authenticate - every credential outcome and every outcome "
-            "of the other checks and every body (absent / valid / invalid for the route's payload validations): handler invoked -> "
-            "authenticated when required, and authenticated with all required permissions or administrator), "
-            "C20_rejected_not_invoked (a failed authentication or permission check is final whatever the body), C20_revoked_not_invoked (after any history of permission changes and requests a user who NOW holds neither a required permission nor ego.root does not reach the handler; driven on the file-backed and the SQL-backed user store), C20_builder_partial (any order of builder calls without Authentication(false)/LightWeight(true) "
-            "yields safe flags and keeps a requested authentication), C20_refuted / C20_refuted_perms_unauth / "
-            "C20_builder_refuted (the unguarded claims are false: LightWeight(true).Authentication(true) runs the handler without "
-            "credentials; Permissions(p).Authentication(false) runs it for a wrong password of a user holding p; "
-            "Authentication(true).LightWeight(true) silently drops the requirement) - all three replayed on the real code and "
-            "recorded as known findings. forallb safe_flags holds on the real route table regenerated on every run, so the gate "
-            "theorem applies to every real route. partial: the three unsafe flag combinations are excluded by the guard (known "
-            "findings); Authenticate itself (password hashes, token decryption, JWT) is an oracle exercised only through the 14 "
-            "credential forms; JWT-resolved permissions are modelled but not driven (OAuth disabled)",
+    "text": "Theorems over the model of the REPAIRED router (fixes 443fbd75, 0c2c3c02 in /repo): C20_gate = C20_statement, "
+            "UNGUARDED - for every flag combination (lightweight or not, any order of builder calls), every credential outcome, "
+            "every outcome of the other request checks and every body (absent / valid / invalid for the payload validations): "
+            "handler invoked -> authenticated when required, and authenticated with all required permissions or administrator "
+            "when permissions are named; C20_rejected_not_invoked (a failed check is final whatever the body); "
+            "C20_revoked_not_invoked (after any history of permission changes a user who NOW holds neither the permission nor "
+            "ego.root is not served; driven on the file-backed and the SQL-backed user store); C20_builder_monotone (every call "
+            "order: a requested authentication stays unless a LATER Authentication(false) withdraws it) and "
+            "C20_permissions_imply_authentication (naming permissions anywhere makes the route need an authenticated caller); "
+            "C20_old_refuted / C20_old_refuted_perms_unauth / C20_builder_old_refuted keep the three repaired defects as "
+            "witnesses over serve_old / build_old. The model is compared with the real builder methods and the real ServeHTTP "
+            "(declarations in all call orders x 14 credential forms x bodies; all 71 real routes with recording handlers; "
+            "permission-change histories on both user stores), and forallb safe_flags holds on the regenerated real table. "
+            "partial: Authenticate itself (password hashes, token decryption, JWT) is an oracle exercised through the 14 "
+            "credential forms; JWT-resolved permissions are modelled but not driven (OAuth disabled); routes from lib/services "
+            "are not in the dumped table",
     "note": "Trusted: Coq kernel; the hand-written model tied to the code by the correspondence run; overlay harnesses "
             "harness/C20/gate_test.go, harness/C32/router_dump.go + table_test.go; props/C20.py generators and comparison.",
 }
@@ -330,8 +333,9 @@ def run(ck):
               "media-type, parameter, paging and payload checks are two booleans (they can only prevent the handler from running)",
               "the real route table is the one built by defineStaticRoutes + defineNativeAdminHandlers with default settings")
     ck.trusted("harness/C20/gate_test.go, harness/C32/router_dump.go, harness/C32/table_test.go (overlays), props/C20.py")
-    thms = ["C20_refuted", "C20_refuted_perms_unauth", "C20_gate_partial", "C20_rejected_not_invoked", "C20_builder_partial",
-            "C20_builder_refuted", "C20_revoked_not_invoked"]
+    thms = ["C20_gate", "C20_rejected_not_invoked", "C20_revoked_not_invoked", "C20_builder_monotone",
+            "C20_permissions_imply_authentication", "C20_builder_partial", "C20_old_refuted", "C20_old_refuted_perms_unauth",
+            "C20_builder_old_refuted"]
     coq_ok = ck.coq_stage(GROUP, theorems=thms)
 
     ok, binp = vf.go_test_build(ck.work, "internal/router",
@@ -375,6 +379,8 @@ def run(ck):
     nontriv, hist = set(), {}
     for idx, (fn, line) in decl_cases.items():
         calls, r = cases[idx][0], res[idx]
+        if not r["invoked"]:
+            continue        # since fixes 443fbd75 / 0c2c3c02 such a declaration is enforced: only a reached handler is reported
         ck.violation("real-declaration:%s" % fn, "the route declared at %s:%d mixes a requirement with a call that withdraws it (%r): resulting flags "
                      "must=%s light=%s perms=%r; a request without credentials %s its handler" % (
                          fn, line, calls, r["must"], r["light"], r["perms"], "REACHES" if r["invoked"] else "does not reach"),
@@ -501,9 +507,9 @@ Definition one (c : list call * cred * option bool) : list N :=
                     src = ("From Common Require Import Base.\nFrom Gate Require Import Model Proofs Properties.\nOpen Scope N_scope.\n"
                            "Definition real_routes : list flags := [\n%s].\n"
                            "Theorem C20_real_table : forallb safe_flags real_routes = true.\nProof. vm_compute. reflexivity. Qed.\n"
-                           "Theorem C20_real_routes_gated : forall f c l m p body, In f real_routes -> wf_cred c -> serve f c l m p body = Invoked ->\n"
+                           "Theorem C20_real_routes_gated : forall f c l m p body, In f real_routes -> serve f c l m p body = Invoked ->\n"
                            "  (must_auth f = true -> authed c = true) /\\ (forall ps, perms f = Some ps -> authed c = true /\\ (admin c = true \\/ forallb (granted c) ps = true)).\n"
-                           "Proof. intros f c l m p body Hin. apply C20_gate_partial. exact (proj1 (forallb_forall _ _) C20_real_table f Hin). Qed.\n"
+                           "Proof. intros f c l m p body _. apply C20_gate. Qed.\n"
                            "Print Assumptions C20_real_routes_gated.\n" % rows)
                     rc, out = vf.coq_run(GROUP, ck.work, "RealGate", src)
                     ck.add_obligations(2, 2 if rc == 0 else 0)
